@@ -229,4 +229,33 @@ def specHistory (lang : Lang) (file : LangConfig) (E : Emitter) : List Call → 
 def modelEmitter (lang : Lang) (name : String → String) : Emitter :=
   ⟨defines name, fun om o => asserts lang om name o⟩
 
+/-! ## delivery of a request through configuration sources -/
+
+/-- `add_config_files(f₁, …, fₙ)`: every file is parsed and `deep_update`d into the builder's configuration, in order
+(the `options:` mapping of the target language's section of each file). -/
+def Builder.addConfigFiles (b : Builder) (files : List OptSet) : Builder :=
+  { b with config := { b.config with options := files.foldl update b.config.options } }
+
+/-- A request as it is delivered: `--configuration` files in order, then `set_target_language_configuration_override("options", ·)`
+calls in order (the CLI makes one, with the flags given on the command line). -/
+structure Delivery where
+  files : List OptSet
+  overrides : List OptSet
+
+def Builder.deliver (b : Builder) (d : Delivery) : Builder :=
+  d.overrides.foldl Builder.setOverride (b.addConfigFiles d.files)
+
+/-- The value a dict literal / YAML mapping ends up with for `k` (a later duplicate wins). -/
+def lastVal (u : OptSet) (k : String) : Option OptVal := u.reverse.lookup k
+
+/-- The options dict handed to validation: built-in, then the files in order, then the LAST override call (each
+`set_…_override` of a key replaces the pending value of that key). -/
+def merged (file : LangConfig) (d : Delivery) : OptSet :=
+  update (d.files.foldl update file.options) (d.overrides.getLast?.getD [])
+
+def effectiveDelivered (lang : Lang) (file : LangConfig) (d : Delivery) : Except FlowErr OptSet :=
+  match validate lang file.presets (merged file d) with
+  | (o, none) => .ok o
+  | (_, some e) => .error e
+
 end NunavutVerif.Options
